@@ -196,6 +196,45 @@ pub fn spec_wf_pass(ctx: &Ctx, rep: &mut Report, cases: &[Case], outs: &[Outcome
     }
 }
 
+/// EVERY matrix over a small value set for the smallest sizes: all tie patterns, zeros and (optionally)
+/// negative entries for n = 3, 4 (three values) and n = 5 (two values), each through every accepting
+/// (entry point, method) pair — 3^3 + 2 * 3^6 + 2^10 matrices.  Deterministic; the random tie classes
+/// sample this space, this family exhausts it.
+pub fn exhaustive_small_cases(ctx: &Ctx, negatives: bool) -> Vec<Case> {
+    let mut out = vec![];
+    let mut sets: Vec<(usize, Vec<f64>)> = vec![(3, vec![0.0, 1.0, 2.0]), (4, vec![0.0, 1.0, 2.0]), (5, vec![1.0, 2.0])];
+    if negatives {
+        sets.push((3, vec![-1.0, 0.0, 1.0]));
+        sets.push((4, vec![-1.0, 0.0, 1.0]));
+    }
+    let mut k = 0usize;
+    for (n, vals) in sets {
+        let len = gen::tri(n);
+        let base = vals.len();
+        let total = base.pow(len as u32);
+        for code in 0..total {
+            let mut c = code;
+            let m: Vec<f64> = (0..len).map(|_| { let v = vals[c % base]; c /= base; v }).collect();
+            // in the quick tier one (entry point, method) pair per matrix, rotating; all pairs in thorough
+            let mut pairs = vec![];
+            for alg in ALGS {
+                for method in METHODS {
+                    if alg.accepts(method) {
+                        pairs.push((alg, method));
+                    }
+                }
+            }
+            let chosen: Vec<(Alg, Method)> = if ctx.thorough { pairs } else { vec![pairs[k % pairs.len()], pairs[(k * 7 + 3) % pairs.len()]] };
+            for (alg, method) in chosen {
+                let w32 = k % 2 == 0;
+                out.push(Case { alg, method, w32, n, bits: m.iter().map(|&x| f64_to_bits(w32, x)).collect(), class: "exhaustive" });
+                k += 1;
+            }
+        }
+    }
+    out
+}
+
 fn n_cases(ctx: &Ctx, quick: usize, thorough: usize) -> usize {
     let base = if ctx.thorough { thorough } else { quick };
     ((base as f64) * ctx.scale) as usize
@@ -229,6 +268,7 @@ pub fn c01(ctx: &Ctx, rep: &mut Report) {
         &mut rng,
         &GenSpec { count: n_cases(ctx, 3000, 60000), max_n: if ctx.thorough { 300 } else { 48 }, classes: &gen::CLASSES, algs: &ALGS, methods: &METHODS, min_n: 0 },
     ));
+    cases.extend(exhaustive_small_cases(ctx, true));
     generic_session(ctx, rep, cases, &|c, o| {
         expect_ok(c, o)?;
         if let Outcome::Ok { obs, steps, .. } = o {
@@ -264,6 +304,8 @@ pub fn c03(ctx: &Ctx, rep: &mut Report) {
         &mut rng,
         &GenSpec { count: n_cases(ctx, 2500, 40000), max_n: if ctx.thorough { 100 } else { 36 }, classes: &TIE_CLASSES, algs: &ALGS, methods: &METHODS, min_n: 2 },
     );
+    let mut cases = cases;
+    cases.extend(exhaustive_small_cases(ctx, true));
     generic_session(ctx, rep, cases, &|c, o| {
         expect_ok(c, o)?;
         let steps = o.steps().unwrap();
@@ -1104,6 +1146,8 @@ pub fn c12(ctx: &Ctx, rep: &mut Report) {
         &mut rng,
         &GenSpec { count: n_cases(ctx, 3000, 60000), max_n: if ctx.thorough { 300 } else { 48 }, classes: &gen::CLASSES, algs: &ALGS, methods: &METHODS, min_n: 0 },
     );
+    let mut cases = cases;
+    cases.extend(exhaustive_small_cases(ctx, true));
     generic_session(ctx, rep, cases, &|c, o| {
         expect_ok(c, o)?;
         let nonneg = c.bits.iter().all(|&b| bits_to_f64(c.w32, b) >= 0.0);
